@@ -2409,17 +2409,26 @@ fn c12_vfs(rep: &mut Report, idx: &mut u64, dev: &mut FuseDev) {
                 if enosys(&opendir) != (enabled & k::FUSE_NO_OPENDIR_SUPPORT != 0) {
                     problems.push(("no-opendir-behaviour".into(), format!("OPENDIR answered {:?} although zero-message-opendir negotiated = {}", opendir.as_ref().map(|x| x.error), enabled & k::FUSE_NO_OPENDIR_SUPPORT != 0)));
                 }
-                // a second INIT is refused and changes nothing
-                let r2 = dev.via_sep(&server, &init_req(7, 36, u64::MAX & !(1 << 31), Ext::Present, 4096), 8192);
-                rep.transitions += 1;
-                match r2.records.first().map(|x| parse_init(x)) {
-                    Some(Ok(ir)) if ir.error < 0 => {}
-                    other => problems.push(("second-init-accepted".into(), format!("second INIT answered {:?}", other.map(|x| x.map(|y| y.error))))),
-                }
-                let open2 = send(dev, &c.req().bytes());
-                let opendir2 = send(dev, &c2.req().bytes());
-                if enosys(&open2) != enosys(&open) || enosys(&opendir2) != enosys(&opendir) {
-                    problems.push(("second-init-changed-behaviour".into(), "OPEN/OPENDIR behave differently after a refused second INIT".into()));
+                // a second INIT is refused and changes nothing: neither the behaviour nor the negotiation the VFS keeps
+                // (options(), what later mounts are initialised with, what a snapshot saves). Tried with a capability
+                // word that offers everything and with one that offers next to nothing.
+                let opts_before = format!("{:?}", vfs.options());
+                for second in [u64::MAX & !(1 << 31), k::FUSE_ASYNC_READ] {
+                    let r2 = dev.via_sep(&server, &init_req(7, 36, second, Ext::Present, 4096), 8192);
+                    rep.transitions += 1;
+                    match r2.records.first().map(|x| parse_init(x)) {
+                        Some(Ok(ir)) if ir.error < 0 => {}
+                        other => problems.push(("second-init-accepted".into(), format!("second INIT answered {:?}", other.map(|x| x.map(|y| y.error))))),
+                    }
+                    let open2 = send(dev, &c.req().bytes());
+                    let opendir2 = send(dev, &c2.req().bytes());
+                    if enosys(&open2) != enosys(&open) || enosys(&opendir2) != enosys(&opendir) {
+                        problems.push(("second-init-changed-behaviour".into(), "OPEN/OPENDIR behave differently after a refused second INIT".into()));
+                    }
+                    let opts_after = format!("{:?}", vfs.options());
+                    if opts_after != opts_before {
+                        problems.push(("second-init-changed-options".into(), format!("a refused second INIT (capabilities {:#x}) changed the stored negotiation from {} to {}", second, opts_before, opts_after)));
+                    }
                 }
                 rep.outcome(&format!("vfs:sw{}:{}", sw, if problems.is_empty() { "ok" } else { "MISMATCH" }));
                 rep.state_of(&("vfs", sw, cm, enabled));
